@@ -227,6 +227,32 @@ func runC05(c *Ctx, r *Report, tier string) {
 			c.reqRule(r, "INI", ip, s, "Set only in normal mode", litHas(false, "IniParser.ParseAsDefaults(P0)"), "¬ParseAsDefaults", nil)
 		}
 	}
+	// as-defaults mode: every entry of one option is applied, not only the first — the inhibition that an applied
+	// entry leaves behind (preventDefault = true) is lifted again before setDefault is asked
+	for _, s := range setters {
+		if c.calleeName(s.(ssa.CallInstruction).Common()) != "(*Option).setDefault" || entryLoop == nil {
+			continue
+		}
+		q := &PathQ{c: c, Fn: ip, CutIn: func(in ssa.Instruction) bool {
+			st, ok := in.(*ssa.Store)
+			return ok && c.isStoreTo(pd)(in) && c.term(st.Val) == "false"
+		}}
+		path, found := q.Reach(Site{entryLoop.Header, 0}, 0, isInstr(s))
+		r.Check(!found, "INI", in_, "as-defaults entries re-arm the option before setDefault", c.ipos(s), "within an iteration setDefault MPT(store preventDefault = false)", "setDefault is reached with preventDefault still set by the previous entry of the same option (later entries are dropped): "+pathStr(path))
+	}
+	// arming is unconditional: every option, explicitly set or not, is emptied by the first INI entry it gets
+	for _, st := range c.storesTo(crbs) {
+		if c.term(st.Store.Val) != "true" {
+			continue
+		}
+		var extra []string
+		for _, d := range c.controlDeps(st.Fn, st.Store.Block()) {
+			if l, ok := c.edgeLit(d.B, d.Succ); ok {
+				extra = append(extra, l.String())
+			}
+		}
+		r.Check(len(extra) == 0, "FLAGS", c.fname(st.Fn), "arming is unconditional", c.ipos(st.Store), "clearReferenceBeforeSet = true under no condition", "an option is armed only under "+strings.Join(extra, "; ")+": the others keep their previous contents when the first value arrives")
+	}
 	// the snapshot records exactly the options whose defaults are already prevented (set explicitly, or by an earlier INI file)
 	nSnap := 0
 	// the snapshot map is the one consulted by the as-defaults skip
